@@ -131,8 +131,20 @@ def oracle(ctx, widen=1):
             wl = rng.uniform(0.3, 3)
             kinds.add((seq, regime))
             cases += 1
+            # the angles may arrive as any real number type: Python int / float, numpy scalars of any width. The value is what counts.
+            typ = rng.choice(["float"] * 6 + ["int", "np.float32", "np.int16", "np.int64", "np.float64", "np.uint8"])
+            if typ != "float":
+                conv = {"int": lambda x: int(round(x)), "np.float32": np.float32, "np.int16": lambda x: np.int16(round(x)), "np.int64": lambda x: np.int64(round(x)),
+                        "np.float64": np.float64, "np.uint8": lambda x: np.uint8(round(x) % 200)}[typ]
+                k = rng.randrange(6)
+                pa = list(p); pa[k] = conv(p[k])
+                p = tuple(float(x) for x in pa)       # the exact value of the converted number
+                regime = regime + ":" + typ
+                kinds.add((seq, regime))
+            else:
+                pa = p
             try:
-                got = np.array(hc.get_hkl(Position(*p), wl), float)
+                got = np.array(hc.get_hkl(Position(*pa), wl), float)
             except Exception as e:  # noqa
                 bad = f"get_hkl raised {type(e).__name__}: {e}"
                 break
